@@ -51,3 +51,23 @@ def RomCertV1OK (co : CryptoOps) (renv : Spec.MbiRom.RomEnv) (cert : Bytes) (cer
       ∧ ci.table = table ∧ ci.imageLength = il ∧ ci.blockEnd = off + cert.length
 
 end SpsdkVerif.Mbi
+
+/-! ## how the theorems read the ROM's obligations (phase 2: tamper reductions) -/
+namespace SpsdkVerif.Mbi
+open SpsdkVerif SpsdkVerif.Misc SpsdkVerif.Crypto
+
+/-- an ECDSA obligation holds under `co.verify`; the other kinds are not looked at -/
+def holdsEcdsa (co : CryptoOps) (alg : SigAlg) : Spec.MbiRom.Obligation → Prop
+  | .ecdsa pub data sig => co.verify alg pub data sig = true
+  | _ => True
+
+/-- an RSA-by-certificate obligation holds under `co.verify`, `certPub` being the (opaque, X.509) public key of the
+    certificate bytes; `body` is the image without HMAC / key store; the other kinds are not looked at -/
+def holdsRsa (co : CryptoOps) (alg : SigAlg) (certPub : Bytes → PubKey) (body : Bytes) : Spec.MbiRom.Obligation → Prop
+  | .rsaByCert cert e => co.verify alg (certPub (Spec.MbiRom.sub body cert.1 (cert.1 + cert.2))) (body.take e) (body.drop e) = true
+  | _ => True
+
+/-- position `i` is one of the IVT words the ROM reads for the layout (total length, flags, CRC / certificate offset) -/
+def layoutWord (i : Nat) : Prop := 0x20 ≤ i ∧ i < 0x2C
+
+end SpsdkVerif.Mbi
